@@ -5,6 +5,7 @@ import Xo.Drv.Spec
 import Xo.Drv.BufPrim
 import Xo.Drv.Lay
 import Xo.Drv.Heap
+import Xo.Drv.KCall
 /-! `lake env lean --run Driver.lean <component>` : stdin ops → stdout results -/
 def main (args : List String) : IO UInt32 := do
   let i ← IO.getStdin
@@ -16,5 +17,6 @@ def main (args : List String) : IO UInt32 := do
   | ["prim"] => Drv.loop i o Drv.PrimD.step (); return 0
   | ["lay"] => Drv.loop i o Drv.LayD.step Drv.LayD.init; return 0
   | ["heap"] => Drv.loop i o Drv.HeapD.step Drv.HeapD.init; return 0
+  | ["kcall"] => Drv.loop i o Drv.KCallD.step (); return 0
   | ["topo"] => Drv.loop i o Drv.TopoD.step (); return 0
   | _ => IO.eprintln "usage: Driver.lean <component>"; return 2
